@@ -380,6 +380,27 @@ macro_rules! set_mod {
                         let (pd, sd) = (pk_dump(&pk), sk_dump(&sk));
                         format!("ok {} {} {} {}", tohex(&pk.into_bytes()), tohex(&sk.into_bytes()), pd, sd)
                     }
+                    // the entry points that draw from the operating system (feature default-rng): nothing can be compared byte for
+                    // byte, but the results must be fresh, self-consistent and not those of a guessable draw
+                    "os_keygen" => {
+                        let r = api::try_keygen();
+                        okerr(r, |(pk, sk)| format!("{} {}", tohex(&pk.into_bytes()), tohex(&sk.into_bytes())))
+                    }
+                    "os_kg_keygen" => {
+                        let r = api::KG::try_keygen();
+                        okerr(r, |(pk, sk)| format!("{} {}", tohex(&pk.into_bytes()), tohex(&sk.into_bytes())))
+                    }
+                    "os_sign" => match sk_of_spec(a[2]) {
+                        Ok(sk) => {
+                            let (msg, ctx) = (hex(a[3]), hex(a[4]));
+                            let r = match a[5] {
+                                "pure" => sk.try_sign(&msg, &ctx),
+                                p => sk.try_hash_sign(&msg, &ctx, &ph(p)),
+                            };
+                            okerr(r, |s| tohex(&s))
+                        }
+                        Err(_) => "key err".to_string(),
+                    },
                     "keygen_rng" => {
                         let mut rng = ScriptRng::new(a[2]);
                         let r = api::try_keygen_with_rng(&mut rng);
